@@ -1,11 +1,19 @@
 /-
 C16 — resizing and padding follow the named boundary rule; cropping undoes extension.
 Property theorems only.  Model: `Model/Resize.lean` (the statements of `resize_array`,
-`_apply_padding`, `_assign_intersection` one axis at a time, composed along the axes); the
-per-mode slice arithmetic is the GENERATED `Gen/PadSlices.lean`, so every theorem below is
-re-checked against what `/repo/odl/util/numerics.py` says on every run.
+`_apply_padding`, `_assign_intersection` one axis at a time, composed along the axes;
+`_resize_discr`, `_offset_from_spaces`, `ResizingOperatorAdjoint._call` for one axis).
+GENERATED from `/repo/odl/util/numerics.py` on every run (`Gen/PadSlices.lean`): the per-mode
+slice arithmetic, the guard table, the pad lengths and the skip condition — the theorems are
+re-checked against these.  HAND-WRITTEN and tied to the source by the correspondence run only:
+the statement sequence of `_apply_padding` after the guards (`=` vs `+=`, sums, moments, signs),
+the fill, the offset range check and the `pad_const` check of `resize_array`, and everything
+from `discr_ops.py`.
+Theorems about `resize1d`/`resizeCore` are ONE-AXIS statements; the n-axes statements are
+`forward_nd_eq_reference`, `axis_order_irrelevant`, `adjoint_transpose_nd`, `weighted_adjoint_nd`,
+`nd_axes_accept_iff`, `nd_accepts_iff`.  The operator theorems are per axis of the partition.
 All sizes, offsets and array contents are universally quantified; scalars range over an
-arbitrary commutative ring (ℤ, ℚ, ℝ, ℂ, …).
+arbitrary commutative ring (ℤ, ℚ, ℝ, ℂ, ℤ/256, …) resp. field.
 -/
 import OdlModel.Lemmas.ResizeSpec
 import OdlModel.Lemmas.ResizeOp
@@ -165,6 +173,19 @@ theorem C16.adjoint_transpose_nd (mode : Mode) (sIn sOut offs : List Nat)
   rw [C16.axis_order_irrelevant mode .adjoint sOut sIn offs Y]
   exact axes_transpose mode sIn sOut offs [] h X Y
 
+/-- **Padding equals NumPy's, any number of axes**, growing in some axes while shrinking in
+others.  On the whole output box the n-d forward resize (per-axis steps in the code's order)
+equals the reference applied axis by axis (`refAxes`): NumPy's `constant/wrap/reflect/edge`
+padding resp. linear extrapolation on growing axes, `x[off : off + m]` on shrinking axes, identity
+on unchanged axes — for all admissible shapes/offsets, every `pad_const` and all contents.
+(`np.pad` itself works axis by axis; `refAxes` is compared with the real n-d `np.pad` in the
+correspondence run.) -/
+theorem C16.forward_nd_eq_reference (mode : Mode) (c : K) (sIn sOut offs : List Nat)
+    (h : AdmissibleND mode sIn sOut offs) (X : List Nat → K) (idx : List Nat)
+    (hidx : ∀ k < sOut.length, idx.getD k 0 < sOut.getD k 0) :
+    resizeAxes mode .forward c 0 sIn sOut offs X idx = refAxes mode c 0 sIn sOut offs X idx :=
+  fwd_axes_eq_ref mode c sIn sOut offs [] X X h (fun _ _ => rfl) idx (by simpa [Pref] using hidx)
+
 /-- The per-axis part of the n-d argument check accepts iff every axis is admissible. -/
 theorem C16.nd_axes_accept_iff (mode : Mode) (c : K) :
     ∀ (sIn sOut offs : List Nat), sIn.length = sOut.length → sIn.length = offs.length →
@@ -228,36 +249,32 @@ section operator
 variable {F : Type} [Field F] [CharZero F]
 
 /-- **`ResizingOperator`: cell sides are unchanged.**  The range axis built by `_resize_discr`
-has the same `cell_sides` as the domain axis — for every interval, all sizes (≥ 2 grid points),
+has the same `cell_sides` as the domain axis — for every interval, all sizes (`AxisOK`: at least
+two grid points, or a single grid point that does not sit on both boundaries),
 every offset (given or `None`) and every combination of `nodes_on_bdry` in domain and range. -/
 theorem C16.range_cell_unchanged (a : Axis F) (nNew : Nat) (off : Option Int) (bl' br' : Bool)
-    (hn : 2 ≤ a.n) (hN : 2 ≤ nNew) :
+    (hn : AxisOK a.n a.bl a.br) (hN : AxisOK nNew bl' br') :
     (resizeAxis a nNew off bl' br').cell = a.cell := by
   obtain ⟨lo, hi, n, bl, br⟩ := a
   have hsum := numLR_sum n nNew off
+  have hD := denom_ne_zero (F := F) n bl br hn
+  have hD' := denom_ne_zero (F := F) nNew bl' br' hN
   simp only [resizeAxis]
   generalize (numLR n nNew off) = pq at hsum ⊢
   obtain ⟨p, q⟩ := pq
   have hq : (q : F) = (nNew : F) - (n : F) - (p : F) := by
     have : q = (nNew : Int) - n - p := by simp at hsum; omega
     rw [this]; push_cast; ring
-  obtain ⟨h1, h2, h3⟩ := cast_ne_zero_facts (F := F) n hn
-  obtain ⟨g1, g2, g3⟩ := cast_ne_zero_facts (F := F) nNew hN
   cases bl <;> cases br <;> cases bl' <;> cases br' <;>
     simp only [Axis.cell, Axis.gridMin, Axis.gridMax, Bool.false_eq_true, ↓reduceIte,
-      Int.cast_natCast, Int.cast_zero, Int.cast_one, Int.cast_ofNat, sub_zero, hq]
-  all_goals first | rw [div_eq_iff g1] | rw [div_eq_iff g2] | rw [div_eq_iff g3]
-  all_goals first
-    | linear_combination (-1 : F) * (div_mul_cancel₀ (hi - lo) h1)
-    | linear_combination (-1 : F) * (div_mul_cancel₀ (hi - lo) h2)
-    | linear_combination (-1 : F) * (div_mul_cancel₀ (hi - lo) h3)
-
+      Int.cast_natCast, Int.cast_zero, Int.cast_one, Int.cast_ofNat, sub_zero, hq] at hD hD' ⊢ <;>
+    (rw [div_eq_iff hD']; linear_combination (-1 : F) * (div_mul_cancel₀ (hi - lo) hD))
 
 /-- **Where the range grid starts (as coded).**  The first grid point of the range is the first
 grid point of the domain moved `num_l` cells to the left, `num_l` as computed by
 `_resize_discr`. -/
 theorem C16.range_grid_min (a : Axis F) (nNew : Nat) (off : Option Int) (bl' br' : Bool)
-    (hn : 2 ≤ a.n) (hN : 2 ≤ nNew) :
+    (hn : AxisOK a.n a.bl a.br) (hN : AxisOK nNew bl' br') :
     (resizeAxis a nNew off bl' br').gridMin =
       a.gridMin - (((numLR a.n nNew off).1 : Int) : F) * a.cell := by
   have hc := C16.range_cell_unchanged a nNew off bl' br' hn hN
@@ -277,7 +294,8 @@ Extension: grid point number `num_l` (= the array offset) of the range is the fi
 point of the domain.  Restriction: the range starts at grid point `-num_l` (= the array
 offset) of the domain; with an explicit offset `o` that is `domain.gridMin + o * cell`. -/
 theorem C16.range_grid_aligned (a : Axis F) (nNew : Nat) (off : Option Int)
-    (bl' br' : Bool) (hn : 2 ≤ a.n) (hN : 2 ≤ nNew) (hoff : ∀ o, off = some o → 0 ≤ o) :
+    (bl' br' : Bool) (hn : AxisOK a.n a.bl a.br) (hN : AxisOK nNew bl' br')
+    (hoff : ∀ o, off = some o → 0 ≤ o) :
     let numL := (numLR a.n nNew off).1
     (a.n ≤ nNew → 0 ≤ numL ∧ (∀ o, off = some o → a.n < nNew → numL = o) ∧
       (resizeAxis a nNew off bl' br').gridMin + ((numL : Int) : F) * a.cell = a.gridMin) ∧
@@ -322,7 +340,8 @@ variable {F : Type} [Field F] [LinearOrder F] [IsStrictOrderedRing F]
 with `offset = None` or `0 ≤ offset ≤ n_new - n` (range with the default `nodes_on_bdry=False`,
 any `nodes_on_bdry` of the domain) the range interval contains the domain interval. -/
 theorem C16.range_covers_domain (a : Axis F) (nNew : Nat) (off : Option Int)
-    (hn : 2 ≤ a.n) (hN : 2 ≤ nNew) (hgrow : a.n ≤ nNew) (hpos : a.lo < a.hi)
+    (hn : AxisOK a.n a.bl a.br) (hN : AxisOK nNew false false) (hgrow : a.n ≤ nNew)
+    (hpos : a.lo < a.hi)
     (hoff : ∀ o, off = some o → 0 ≤ o ∧ o ≤ (nNew : Int) - a.n) :
     (resizeAxis a nNew off false false).lo ≤ a.lo ∧ a.hi ≤ (resizeAxis a nNew off false false).hi := by
   have hc := cell_pos a hn hpos
@@ -383,7 +402,7 @@ theorem C16.offset_from_spaces_aligned (dom ran : Axis Rat) (k : Nat) (hc : dom.
 `offset = None` or `0 ≤ offset ≤ |n_new - n|` the range built from `ran_shp` is accepted and the
 array offset is `|num_l|` (`= offset` when given, see `C16.range_grid_aligned`). -/
 theorem C16.offset_from_spaces_roundtrip (a : Axis Rat) (nNew : Nat) (off : Option Int) (bl' br' : Bool)
-    (hn : 2 ≤ a.n) (hN : 2 ≤ nNew) (hc : a.cell ≠ 0)
+    (hn : AxisOK a.n a.bl a.br) (hN : AxisOK nNew bl' br') (hc : a.cell ≠ 0)
     (hoff : ∀ o, off = some o → 0 ≤ o ∧ o ≤ (((nNew : Int) - a.n).natAbs : Int)) :
     offsetFromAxes a (resizeAxis a nNew off bl' br') =
       .ok (numLR a.n nNew off).1.natAbs := by
